@@ -1,9 +1,18 @@
-(* Property C15: governance deposits are conserved; proposals follow their message-type rules. *)
+(* Property C15: governance deposits are conserved; each deposit is paid out exactly once when its
+   proposal ends; a proposal enters voting only at the minimum applicable to its message type, is
+   tallied with the voting period and quorum of its type, has messages of one type, and a passed
+   proposal's messages take effect all together or not at all.
+
+   model.M_Gov is the code as it is.  `kf_code` is the key function the code implements
+   (sdk.MsgTypeURL of the Any wrapper, i.e. a constant), `kf_fixed` the intended one; theorems
+   quantified over `kf` hold for both.  Theorems named *_refuted / code_* are the proved
+   counterparts of the defects replayed on the real application by harness/c15. *)
 From Coq Require Import ZArith List Bool.
-From FxV Require Import lib.Dec model.M_Gov proofs.P_Gov.
+From FxV Require Import lib.Dec model.M_Gov proofs.P_Gov proofs.P_Gov2 proofs.P_Gov3.
 Import ListNotations.
 Open Scope Z_scope.
 
+(* ---- deposits are conserved ---- *)
 Theorem C15_conservation_general : forall P kf b c ops s ev,
   run P kf (init b c) ops = (s, ev) ->
   gov_bal s + gov_spent s = open_sum (props s) /\
@@ -24,3 +33,251 @@ Theorem C15_end_block_never_fails : forall P kf b c ops s ev t stk,
   end_block P kf t stk s <> None.
 Proof. exact end_block_never_fails. Qed.
 Print Assumptions C15_end_block_never_fails.
+
+Theorem C15_conservation_refuted_by_gov_send :
+  view kf_code h_send 1 = Some (SPassed, FXu 10000, 10, 10 + 14 * day, false, q40) /\
+  view kf_code h_send 2 = Some (SVoting, FXu 10000, 3610, 3610 + 14 * day, false, 0) /\
+  gov_bal s_send = FXu 5000 /\ open_sum (props s_send) = FXu 10000 /\
+  (let '(r, s', _) := step P0 kf_code s_send (OEndBlock (3610 + 14 * day) stk0) in
+   (r, gov_bal s', open_sum (props s'))) = (RHalt, FXu 5000, FXu 10000).
+Proof. exact conservation_refuted_by_gov_send. Qed.
+Print Assumptions C15_conservation_refuted_by_gov_send.
+
+(* ---- each deposit record is paid out exactly once, in the closing step ---- *)
+Theorem C15_payout_exactly_once : forall P kf b c ops s evs,
+  run P kf (init b c) ops = (s, evs) ->
+  forall pid,
+    pays pid evs = match find_prop pid (props s) with
+                   | None => []
+                   | Some p => if is_open (p_status p) then [] else p_deps p
+                   end.
+Proof. exact payout_exactly_once. Qed.
+Print Assumptions C15_payout_exactly_once.
+
+Theorem C15_payout_in_closing_step : forall P kf b c pre o s1 e1 r s2 e2 pid p1 p2,
+  run P kf (init b c) pre = (s1, e1) ->
+  step P kf s1 o = (r, s2, e2) ->
+  find_prop pid (props s1) = Some p1 -> is_open (p_status p1) = true ->
+  find_prop pid (props s2) = Some p2 -> is_open (p_status p2) = false ->
+  pays pid e1 = [] /\ pays pid e2 = p_deps p2.
+Proof. exact payout_in_closing_step. Qed.
+Print Assumptions C15_payout_in_closing_step.
+
+Theorem C15_end_block_refund_xor_burn : forall P kf t stk s s' ev,
+  end_block P kf t stk s = Some (s', ev) -> Forall ev_whole ev.
+Proof. exact end_block_refund_xor_burn. Qed.
+Print Assumptions C15_end_block_refund_xor_burn.
+
+(* ---- activation ---- *)
+Theorem C15_activation_step : forall P kf cust now d a p,
+  p_status p = SDeposit -> p_status (deposited P kf cust now d a p) = SVoting ->
+  let p' := deposited P kf cust now d a p in
+  is_all_gte (coins_of_fx (p_total p')) (egf_min kf cust [(fx, min_for P p)] (p_msgs p)) = true /\
+  p_vstart p' = now /\ p_vend p' = now + period_for P kf cust p /\
+  p_act_total p' = p_total p' /\ p_act_req p' = egf_min kf cust [(fx, min_for P p)] (p_msgs p) /\
+  p_act_period p' = period_for P kf cust p.
+Proof. exact activation_step. Qed.
+Print Assumptions C15_activation_step.
+
+Theorem C15_voting_only_by_activation : forall P kf p p',
+  evolve1 P kf p p' -> p_status p' = SVoting ->
+  p_status p = SVoting \/
+  (p_status p = SDeposit /\ exists cust now d a, 0 <= a /\ p' = deposited P kf cust now d a p).
+Proof. exact voting_only_by_activation. Qed.
+Print Assumptions C15_voting_only_by_activation.
+
+Theorem C15_props_invariant : forall P kf (Q : proposal -> Prop),
+  (forall p p', Q p -> evolve1 P kf p p' -> Q p') ->
+  (forall id now pr ms ex, check_msgs ms = true -> Q (new_proposal P id now pr ms ex)) ->
+  forall b c ops s ev, run P kf (init b c) ops = (s, ev) -> Forall Q (props s).
+Proof. exact props_invariant. Qed.
+Print Assumptions C15_props_invariant.
+
+Theorem C15_activation_invariant : forall P kf b c ops s ev,
+  run P kf (init b c) ops = (s, ev) -> Forall (act_ok P) (props s).
+Proof. exact activation_invariant. Qed.
+Print Assumptions C15_activation_invariant.
+
+Theorem C15_code_activation_amount : forall P b c ops s ev p,
+  0 < min_deposit P -> 0 < exp_min_deposit P ->
+  run P kf_code (init b c) ops = (s, ev) -> In p (props s) ->
+  decided_or_voting (p_status p) = true ->
+  Z.min (min_deposit P) (exp_min_deposit P) <= p_act_total p <= p_total p.
+Proof. exact code_activation_amount. Qed.
+Print Assumptions C15_code_activation_amount.
+
+Theorem C15_code_min_is_default : forall cust m ms, egf_min kf_code cust [(fx, m)] ms = [(fx, m)].
+Proof. exact code_min_is_default. Qed.
+Print Assumptions C15_code_min_is_default.
+
+Theorem C15_fixed_activation_egf : forall P cust now d a p cp,
+  p_status p = SDeposit -> p_status (deposited P kf_fixed cust now d a p) = SVoting ->
+  0 < min_for P p -> Forall fx_request (p_msgs p) -> lookup ty_egf cust = Some cp -> c_ratio cp <> 0 ->
+  Z.max (min_for P p) (share_of (c_ratio cp) (requested (p_msgs p))) <= p_total p + a.
+Proof. exact fixed_activation_egf. Qed.
+Print Assumptions C15_fixed_activation_egf.
+
+Theorem C15_fixed_dust_refuted :
+  view kf_fixed h_dust 1 = Some (SVoting, FXu 5000, 10, 10 + 14 * day, false, 0) /\
+  (FXu 5000 <? min_deposit P0) = true.
+Proof. exact fixed_dust_refuted. Qed.
+Print Assumptions C15_fixed_dust_refuted.
+
+Theorem C15_fixed_foreign_refuted :
+  view kf_fixed h_foreign 1 = Some (SVoting, FXu 100, 10, 10 + 14 * day, false, 0).
+Proof. exact fixed_foreign_refuted. Qed.
+Print Assumptions C15_fixed_foreign_refuted.
+
+(* ---- voting period and quorum by message type ---- *)
+Theorem C15_code_type_blind : forall P cust p q,
+  (p_msgs p = [] <-> p_msgs q = []) -> p_expedited p = p_expedited q ->
+  period_for P kf_code cust p = period_for P kf_code cust q /\
+  quorum_for P kf_code cust p = quorum_for P kf_code cust q.
+Proof. exact code_type_blind. Qed.
+Print Assumptions C15_code_type_blind.
+
+Theorem C15_code_ignores_type_rules_refuted :
+  view kf_code h_types 1 = Some (SVoting, FXu 10000, 10, 10 + 14 * day, false, 0) /\
+  option_map c_ratio (lookup ty_egf cust0) = Some 100000000000000000 /\
+  share_of 100000000000000000 (requested [egf_msg [(fx, FXu 1000000)]]) = FXu 100000 /\
+  view kf_code h_types 2 = Some (SVoting, FXu 10000, 10, 10 + 14 * day, false, 0) /\
+  option_map c_period (lookup ty_toggle cust0) = Some (7 * day).
+Proof. exact code_ignores_type_rules. Qed.
+Print Assumptions C15_code_ignores_type_rules_refuted.
+
+Theorem C15_code_ignores_type_quorum_refuted :
+  view kf_code h_quorum 1 = Some (SRejected, FXu 10000, 10, 10 + 14 * day, false, q40) /\
+  option_map c_quorum (lookup ty_toggle cust0) = Some q25 /\
+  (q25 <=? participation stk0 (with_votes (new_proposal P0 1 10 11 [toggle_msg] false) [(0, yes)])) = true.
+Proof. exact code_ignores_type_quorum. Qed.
+Print Assumptions C15_code_ignores_type_quorum_refuted.
+
+Theorem C15_fixed_period_by_type : forall P cust p,
+  period_for P kf_fixed cust p =
+  match lookup (first_type (p_msgs p)) cust with
+  | Some cp => c_period cp
+  | None => if p_expedited p then exp_voting_period P else voting_period P
+  end /\
+  quorum_for P kf_fixed cust p =
+  match lookup (first_type (p_msgs p)) cust with
+  | Some cp => c_quorum cp
+  | None => quorum P
+  end.
+Proof. exact fixed_period_by_type. Qed.
+Print Assumptions C15_fixed_period_by_type.
+
+Theorem C15_fixed_applies_type_rules :
+  view kf_fixed h_types 1 = Some (SDeposit, FXu 10000, 0, 0, false, 0) /\
+  view kf_fixed h_types 2 = Some (SPassed, FXu 10000, 10, 10 + 7 * day, false, q25).
+Proof. exact fixed_applies_type_rules. Qed.
+Print Assumptions C15_fixed_applies_type_rules.
+
+Theorem C15_fixed_conversion_uses_default_period :
+  view kf_fixed (firstn 1 h_conv) 1 = Some (SVoting, FXu 50000, 10, 10 + 7 * day, true, 0) /\
+  view kf_fixed h_conv 1 = Some (SVoting, FXu 50000, 10, 10 + 14 * day, false, q25).
+Proof. exact fixed_conversion_uses_default_period. Qed.
+Print Assumptions C15_fixed_conversion_uses_default_period.
+
+Theorem C15_tally_uses_type_quorum : forall P kf cust stk p,
+  q_used (tally P kf cust stk p) = quorum_for P kf cust p /\
+  (passes (tally P kf cust stk p) = true ->
+   st_total_bonded stk <> 0 /\ quorum_for P kf cust p <= participation stk p).
+Proof. exact tally_uses_type_quorum. Qed.
+Print Assumptions C15_tally_uses_type_quorum.
+
+Theorem C15_tallied_records_quorum : forall P kf stk s id s' e p p',
+  process_active P kf stk s id = Some (s', e) ->
+  find_prop id (props s) = Some p -> p_status p = SVoting ->
+  find_prop id (props s') = Some p' ->
+  p_quorum_used p' = quorum_for P kf (custom s) p /\
+  (p_status p' = SPassed \/ p_status p' = SFailed -> quorum_for P kf (custom s) p <= participation stk p).
+Proof. exact tallied_records_quorum. Qed.
+Print Assumptions C15_tallied_records_quorum.
+
+(* ---- one message type per proposal ---- *)
+Theorem C15_check_msgs_spec : forall ms, check_msgs ms = true <-> same_type ms.
+Proof. exact check_msgs_spec. Qed.
+Print Assumptions C15_check_msgs_spec.
+
+Theorem C15_submit_rejects_mixed : forall P kf now s proposer ms amt ex valid bd,
+  ~ same_type ms -> submit P kf now s proposer ms amt ex valid bd = (RErr EMixed, s).
+Proof. exact submit_rejects_mixed. Qed.
+Print Assumptions C15_submit_rejects_mixed.
+
+Theorem C15_single_type : forall P kf b c ops s ev,
+  run P kf (init b c) ops = (s, ev) -> Forall (fun p => same_type (p_msgs p)) (props s).
+Proof. exact single_type. Qed.
+Print Assumptions C15_single_type.
+
+(* ---- a passed proposal's messages: all together or not at all ---- *)
+Theorem C15_atomic_execution : forall P kf stk s id p s1 ev pre m post si,
+  find_prop id (props s) = Some p -> p_status p = SVoting ->
+  passes (tally P kf (custom s) stk p) = true ->
+  pay_out s p (burns (tally P kf (custom s) stk p)) = Some (s1, ev) ->
+  p_msgs p = pre ++ m :: post -> exec_msgs s1 pre = Some si -> exec_one si m = None ->
+  exists s', process_active P kf stk s id = Some (s', ev) /\
+             world s' = world s1 /\
+             exists p', find_prop id (props s') = Some p' /\ p_status p' = SFailed /\
+                        forall id', id' <> id -> find_prop id' (props s') = find_prop id' (props s).
+Proof. exact atomic_execution. Qed.
+Print Assumptions C15_atomic_execution.
+
+Theorem C15_all_applied : forall P kf stk s id p s1 ev s2,
+  find_prop id (props s) = Some p -> p_status p = SVoting ->
+  passes (tally P kf (custom s) stk p) = true ->
+  pay_out s p (burns (tally P kf (custom s) stk p)) = Some (s1, ev) ->
+  exec_msgs s1 (p_msgs p) = Some s2 ->
+  exists s', process_active P kf stk s id = Some (s', ev) /\ world s' = world s2 /\
+             exists p', find_prop id (props s') = Some p' /\ p_status p' = SPassed.
+Proof. exact all_applied. Qed.
+Print Assumptions C15_all_applied.
+
+(* ---- the hypotheses above are met by concrete histories ---- *)
+Theorem C15_main_history_nonvacuous :
+  Forall op_no_govsend h_main /\
+  map (fun p => (p_id p, p_status p)) (props (fst final_main))
+    = [(1, SPassed); (2, SFailed); (3, SDropped); (4, SCancelled); (5, SRejected)] /\
+  gov_bal (fst final_main) = 0 /\ open_sum (props (fst final_main)) = 0 /\
+  ext (fst final_main) = [3] /\
+  pays 1 (snd final_main) = [(10, FXu 9900); (11, FXu 100)] /\
+  pays 5 (snd final_main) = [(14, FXu 2000); (15, FXu 8000)] /\
+  burned (fst final_main) = FXu 5000 + FXu 10000 /\
+  bal (fst final_main) 14 = FXu 1000000 - FXu 2000 /\
+  bal (fst final_main) 10 = FXu 1000000.
+Proof. exact main_history_nonvacuous. Qed.
+Print Assumptions C15_main_history_nonvacuous.
+
+Theorem C15_main_history_midway :
+  let s := fst (run P0 kf_code (init bal0 cust0) (firstn 7 h_main)) in
+  gov_bal s = FXu 10000 + FXu 10000 + FXu 100 + FXu 10000 + FXu 10000 /\
+  gov_bal s = open_sum (props s) /\
+  map snd (inactive_queue (props s)) = [3] /\ map snd (active_queue (props s)) = [1; 2; 4; 5].
+Proof. exact main_history_midway. Qed.
+Print Assumptions C15_main_history_midway.
+
+Theorem C15_atomic_nonvacuous :
+  let s := fst (run P0 kf_code (init bal0 cust0) (firstn 19 h_main)) in
+  match find_prop 2 (props s) with
+  | Some p =>
+      let v := tally P0 kf_code (custom s) stk1 p in
+      (p_status p, passes v, p_msgs p) = (SVoting, true, [toggle_msg] ++ fail_msg :: []) /\
+      match pay_out s p (burns v) with
+      | Some (s1, _) =>
+          match exec_msgs s1 [toggle_msg] with
+          | Some si => ext si = 2 :: ext s1 /\ exec_one si fail_msg = None
+          | None => False
+          end
+      | None => False
+      end
+  | None => False
+  end.
+Proof. exact atomic_nonvacuous. Qed.
+Print Assumptions C15_atomic_nonvacuous.
+
+Theorem C15_share_nonvacuous :
+  view kf_fixed h_share 1 = Some (SDeposit, FXu 100000 - 1, 0, 0, false, 0) /\
+  view kf_fixed (h_share ++ [ODeposit 30 1 12 (FXu 100) false]) 1
+    = Some (SVoting, FXu 100100 - 1, 30, 30 + 14 * day, false, 0) /\
+  option_map p_act_req (find_in kf_fixed (h_share ++ [ODeposit 30 1 12 (FXu 100) false]) 1) = Some [(fx, FXu 100000)].
+Proof. exact share_nonvacuous. Qed.
+Print Assumptions C15_share_nonvacuous.
